@@ -125,7 +125,7 @@ def kindName : TK → String
   | .modPresent => "modpresent" | .modattr => "modattr" | .builtinAttr => "builtinattr" | .buildExc => "buildexc"
   | .truth => "truth" | .raise_ => "raise" | .splat => "splat" | .index => "index" | .idpack => "idpack"
   | .typeOf => "typeof" | .inspect => "inspect" | .probeConn => "probeconn" | .mkclass => "mkclass"
-  | .modLookup => "modlookup" | .modGetattr => "modgetattr"
+  | .modLookup => "modlookup"
   | .cleanup => "cleanup"
 
 def showEv : Ev → String
